@@ -160,10 +160,51 @@ class _Script:
         return results, res, filtered
 
 
+_PRODUCTION = {}
+
+
+def _production_bidirectional_layout():
+    """The names / tolerance keys / pit names that the real bidirectional() hands to the Newton driver, captured by
+    calling it on a dummy net with the driver replaced by a recorder (so that a change of that call is driven through
+    the scripted solve as well).  None if it cannot be captured."""
+    if "bidir" in _PRODUCTION:
+        return _PRODUCTION["bidir"]
+    got = {}
+    marks = {"tol_m": 0.123, "tol_p": 0.234, "tol_T": 0.345}
+
+    def recorder(net, funct, mode, solver_vars, tols, pit_names, iter_name):
+        got.update(mode=mode, solver_vars=list(solver_vars), tols=list(tols), pit_names=list(pit_names), iter_name=iter_name)
+    net = ADict()
+    net["_options"] = dict(marks, tol_res=1.0, reuse_internal_data=False, nonlinear_method="constant", alpha=1, max_iter_bidirect=1)
+    net["converged"] = False
+    net["user_pf_options"] = {}
+    real = PF.newton_raphson
+    PF.newton_raphson = recorder
+    try:
+        PF.bidirectional(net)
+    except Exception:
+        pass
+    finally:
+        PF.newton_raphson = real
+    out = None
+    if got.get("solver_vars") and len(got["solver_vars"]) == len(got["tols"]) == len(got["pit_names"]):
+        inv = {v: k for k, v in marks.items()}
+        try:
+            out = (got["solver_vars"], [inv[t] for t in got["tols"]], got["pit_names"], got["iter_name"])
+        except KeyError:
+            out = None
+    _PRODUCTION["bidir"] = out
+    return out
+
+
 def run_case(case):
     """Returns (list of (sig, detail), info dict)."""
     layout = case["layout"]
     mode, solver_vars, tolkeys, pit_names, iter_name, groups = LAYOUTS[layout]
+    if layout == "bidir":
+        prod = _production_bidirectional_layout()
+        if prod is not None:
+            solver_vars, tolkeys, pit_names, iter_name = prod
     net = ADict()
     opts = {"alpha": case["alpha0"], "nonlinear_method": case["method"], "tol_res": case["tols"]["tol_res"],
             iter_name: case["max_iter"]}
